@@ -806,7 +806,7 @@ class Ref:
         while True:
             if env_front is not None and live:
                 for path, v in (env_front(k) or {}).items():
-                    self.update(path, value=v)
+                    self.update(path, **(v if isinstance(v, dict) else dict(value=v)))
             more = False
             nxt = []
             for R, due, per in ready:
@@ -827,7 +827,7 @@ class Ref:
             if live:
                 if env_back is not None:
                     for path, v in (env_back(k) or {}).items():
-                        self.update(path, value=v)
+                        self.update(path, **(v if isinstance(v, dict) else dict(value=v)))
                 snap = {"k": k, "stamp": self.now, "framers": [self.snapshot(R) for R in self.framers.values()],
                         "shares": {}}
                 for p in watch:
